@@ -62,6 +62,13 @@ BD3 == Dcl(6, 4, 8, <<>>,
 BD4 == Dcl(7, 4, 8, <<>>,
         << Fld("p", "uarb", 2, 0, << <<0, 1>> >>, FALSE, <<>>, <<>>, "rw") >>,
         <<>>)
+(* u5 base with range lists that name a bit twice (accepted by the macro; Register!WithDup): next to an ordinary field *)
+MDup == Dcl(8, 5, 8, <<>>,
+       << Fld("x", "uarb", 4, 0, << <<0, 2>>, <<2, 2>> >>, TRUE, <<>>, <<>>, "rw"),
+          Fld("y", "uarb", 2, 0, << <<4, 4>>, <<4, 4>> >>, TRUE, <<>>, <<>>, "rw"),
+          Fld("z", "uarb", 2, 0, << <<3, 4>> >>, FALSE, <<>>, <<>>, "rw") >>,
+       <<>>)
+DupDecls == {MDup}
 BuilderDecls == {BD1, BD2, BD3, BD4}
 SmallDecls == {MA, MB}
 ByteDecls  == {MC8}
